@@ -19,7 +19,7 @@ RULE = ("full rectangular grids up to 4x3 cells (4x4 / 5x3 thorough): uniform in
 ASSUMPTIONS = [
     "minimum-error mode (f=2, factor=10000), the mode the tool uses; the objective is the tool's documented integer objective int(f)*sum(floor(F*p*a)) - sum(floor(F*a))",
     "at least one cell has positive occupancy (the tool only optimises modules present in the allocation)",
-    "cell areas x 10000 are >= 1 and the module's fixed-point area sum(floor(10000*p*a)) is >= 1 (the tool's objective truncates areas to integers and divides by that sum; a module of total area < 1e-4 is void for it)",
+    "cell areas x 10000 are >= 1 (the tool's fixed-point objective truncates areas to integers; at scales near 1e-3 every area truncates to 0 and the objective is void)",
     "Carrier() needs the Windows-only greedy DLL: the harness swaps a stub in for rect.GreedyManager (the greedy step is not part of the property)",
     "pysat is trusted as the model enumerator; model sets are capped at 60000 (never reached on the generated sizes)",
 ]
@@ -92,10 +92,6 @@ def generate(rng, tier, i):
         occ.append(0.0 if r < 0.25 else 1.0 if r < 0.45 else round(rng.random(), rng.choice([1, 2, 3])))
     if not any(o > 0 for o in occ):
         occ[rng.randrange(len(occ))] = 1.0
-    # the module's fixed-point area sum(floor(10000*p*a)) must be >= 1 (a module of total area < 1e-4 is void for the tool: it divides by that sum)
-    areas = [float(xs[i + 1] - xs[i]) * float(ys[j + 1] - ys[j]) for j in range(ny) for i in range(nx)]
-    if sum(int(10000 * o * a) for o, a in zip(occ, areas)) < 1:
-        occ[max(range(len(occ)), key=lambda n_: areas[n_])] = 1.0
     k = rng.choice([1, 2, 2, 3, 3])
     bound = rng.choice(["none", "none", "random", "optimum", "optimum+1"])
     return {"cls": cls, "xs": [geo.fl(x) for x in xs], "ys": [geo.fl(y) for y in ys], "occ": occ, "k": k, "bound": bound,
@@ -104,6 +100,9 @@ def generate(rng, tier, i):
 
 def directed():
     return [
+        # found by the thorough tier: module whose fixed-point area is 0 (division by zero in the quality ratio)
+        {"cls": "decimal", "xs": [0.0, 0.1, 0.2], "ys": [0.0, 0.1], "occ": [0.006, 0.0], "k": 2, "bound": "none", "via": "allocation", "bseed": 5},
+        {"cls": "decimal", "xs": [0.0, 0.05], "ys": [0.0, 0.15, 0.4, 0.5], "occ": [0.0, 0.0, 0.01], "k": 3, "bound": "optimum", "via": "direct", "bseed": 6},
         {"cls": "fractional_size", "xs": [0.0, 1.0, 2.5], "ys": [0.0, 1.0, 2.5], "occ": [1.0, 0.5, 0.5, 1.0], "k": 2, "bound": "none", "via": "direct", "bseed": 1},
         {"cls": "shifted_origin", "xs": [1.0, 2.0, 3.0], "ys": [1.0, 2.0, 3.0], "occ": [1.0, 0.5, 0.5, 1.0], "k": 2, "bound": "none", "via": "direct", "bseed": 2},
         {"cls": "shifted_origin", "xs": [1.0, 2.0, 3.0], "ys": [1.0, 2.0, 3.0], "occ": [1.0, 0.0, 0.0, 1.0], "k": 2, "bound": "optimum", "via": "allocation", "bseed": 3},
